@@ -27,7 +27,7 @@ def sub_types(t):
     if isinstance(t, str):
         return []
     k = t[0]
-    if k in ("enum", "lit", "cls", "td"):
+    if k in ("enum", "lit", "cls", "td", "union"):
         return []
     if k == "tup":
         return list(t[1])
@@ -55,11 +55,52 @@ def hashable_prim(t) -> bool:
 
 
 def type_classes(t):
-    return [x[1] for x in walk_types(t) if not isinstance(x, str) and x[0] in ("cls", "td")]
+    out = []
+    for x in walk_types(t):
+        if isinstance(x, str):
+            continue
+        if x[0] in ("cls", "td"):
+            out.append(x[1])
+        elif x[0] == "union":
+            out.extend(x[1])
+    return out
 
 
-def supported(cfg, world, t, top=True, _seen=None) -> bool:
-    """Documented type support of the converter class selected by cfg (mirrors Lean `Supported`)."""
+def reach_types(world, t):
+    """t, and the field types of every class reachable from it"""
+    seen, out, todo = set(), [t], list(type_classes(t))
+    while todo:
+        c = todo.pop()
+        if c in seen:
+            continue
+        seen.add(c)
+        for f in world["classes"][c]["fields"]:
+            if f["ty"] is not None:
+                out.append(f["ty"])
+                todo.extend(type_classes(f["ty"]))
+    return out
+
+
+def reach_unions(world, t):
+    return [x for ty in reach_types(world, t) for x in walk_types(ty) if not isinstance(x, str) and x[0] == "union"]
+
+
+def union_by_construction(world, u) -> bool:
+    """is the union a subset (>= 2 members) of a family the generator built to be distinguishable (unique required
+    attributes and/or a Literal tag with pairwise different values)?  Such a union must never be refused."""
+    ms = set(u[1])
+    return any(fam["byc"] and ms <= set(fam["members"]) for fam in world.get("families", []))
+
+
+def may_refuse(world, t) -> bool:
+    """a union reachable from t is not distinguishable by construction: hook creation or structuring may refuse"""
+    return any(not union_by_construction(world, u) for u in reach_unions(world, t))
+
+
+def supported(cfg, world, t, top=True, _seen=None, roundtrip=True) -> bool:
+    """Documented type support of the converter class selected by cfg (mirrors Lean `Supported`).
+    roundtrip=False: support for unstructuring alone (a class union is unstructured under either strategy; it can be
+    structured back only under the dict strategy)."""
     _seen = _seen or set()
     for x in walk_types(t):
         if isinstance(x, str):
@@ -78,21 +119,26 @@ def supported(cfg, world, t, top=True, _seen=None) -> bool:
                 return False
             if k == "tup" and not all(isinstance(y, str) and y in PRIMS for y in x[1]):
                 return False
-        if k in ("cls", "td") and world["classes"][x[1]].get("recursive") == "self" and (not cfg["gen"] or cfg["tuple"]):
-            return False  # typing.Self is resolved by the generated dict hooks only (Converter, dict strategy)
-        if k in ("cls", "td") and x[1] not in _seen:
-            _seen.add(x[1])
-            for f in world["classes"][x[1]]["fields"]:
-                if f.get("bare_final") and (not cfg["gen"] or cfg["tuple"]):
-                    return False  # bare Final is understood by the generated dict hooks only
-                if f["ty"] is not None and not supported(cfg, world, f["ty"], False, _seen):
-                    return False
+        if k == "union" and cfg["tuple"] and roundtrip:
+            return False  # the decision function of a class union only accepts mappings
+        members = [x[1]] if k in ("cls", "td") else (list(x[1]) if k == "union" else [])
+        for ci in members:
+            if world["classes"][ci].get("recursive") == "self" and (not cfg["gen"] or cfg["tuple"]):
+                return False  # typing.Self is resolved by the generated dict hooks only (Converter, dict strategy)
+            if ci not in _seen:
+                _seen.add(ci)
+                for f in world["classes"][ci]["fields"]:
+                    if f.get("bare_final") and (not cfg["gen"] or cfg["tuple"]):
+                        return False  # bare Final is understood by the generated dict hooks only
+                    if f["ty"] is not None and not supported(cfg, world, f["ty"], False, _seen, roundtrip):
+                        return False
     return True
 
 
 class Gen:
-    def __init__(self, rng: random.Random, max_depth=3, big=False, no_any=False, recursive=True):
+    def __init__(self, rng: random.Random, max_depth=3, big=False, no_any=False, recursive=True, unions=False):
         self.rng = rng
+        self.unions = unions  # class unions (automatic disambiguation): union families in worlds, union types
         self.recursive = recursive  # generate self-referential classes (typing.Self)
         self.max_depth = max_depth
         self.big = big
@@ -149,9 +195,90 @@ class Gen:
             else:
                 vals = r.sample(["b", "c", "x", "zz", "7", "-1", "b7"], n)
                 w["enums"].append([("s", v) for v in vals])
-        for ci in range(r.randint(1, 4) if n_classes is None else n_classes):
-            w["classes"].append(self.cls(w, ci, kinds, allow_untyped))
+        n = r.randint(1, 4) if n_classes is None else n_classes
+        if not self.unions:
+            for ci in range(n):
+                w["classes"].append(self.cls(w, ci, kinds, allow_untyped))
+            return w
+        w["families"] = []
+        while len(w["classes"]) < n:
+            if r.random() < 0.4 and ("attrs" in kinds or "dc" in kinds):
+                self.family(w, [k for k in kinds if k != "td"], allow_untyped)
+            else:
+                w["classes"].append(self.cls(w, len(w["classes"]), kinds, allow_untyped))
         return w
+
+    TAG_POOL = [("s", "k0"), ("s", "k1"), ("s", "k2"), ("i", 1), ("i", 2), ("i", 3), ("s", "b"), ("i", 0)]
+
+    def family(self, w, kinds, allow_untyped=True):
+        """2-3 attrs classes / dataclasses meant to be members of one union.
+        uniq: every member has a required attribute of its own;  tag: a common Literal attribute `kind` with pairwise
+        different values;  tag-overlap: two members share a tag value and are told apart by their own required
+        attributes (literal sub-union);  same: identical attribute names, nothing to tell them apart (refused);
+        random: ordinary random classes."""
+        r = self.rng
+        base = len(w["classes"])
+        n = r.randint(2, 3)
+        mode = r.choice(["uniq", "uniq", "tag", "tag", "tag-overlap", "same", "random"])
+        if mode == "random":
+            for _ in range(n):
+                w["classes"].append(self.cls(w, len(w["classes"]), kinds, allow_untyped))
+            w["families"].append({"members": list(range(base, base + n)), "mode": mode, "byc": False})
+            return
+        tags = r.sample(self.TAG_POOL, 6)
+        shared = [(nm, self.type(w, r.randint(0, 1), max_cls=base), r.random() < 0.5)
+                  for nm in r.sample(["a", "b", "c", "xy", "_p"], r.randint(0 if mode != "same" else 1, 2))]
+        for i in range(n):
+            kind = r.choice(kinds)
+
+            def mk(name, ty, dflt=None):
+                return {"name": name, "alias": name.lstrip("_") if kind == "attrs" else name, "ty": ty, "dflt": dflt,
+                        "init": True, "required": True, "kw_only": False}
+
+            fields = []
+            if mode in ("tag", "tag-overlap"):
+                vals = [tags[2 * i]] + ([tags[2 * i + 1]] if r.random() < 0.3 else [])
+                if mode == "tag-overlap" and i == 1:
+                    vals = [tags[0]] + vals[1:]  # shares its first value with member 0
+                fields.append(mk("kind", ("lit", vals), ("c", vals[0]) if r.random() < 0.5 else None))
+            if mode in ("uniq", "tag-overlap") or (mode == "tag" and r.random() < 0.4):
+                fields.append(mk("u%d" % i, self.type(w, r.randint(0, 1), max_cls=base)))
+            for nm, ty, dfl in shared:
+                if mode != "same" and r.random() < 0.25:
+                    continue
+                d = None
+                if dfl:
+                    v = self.value(w, ty, 1, any_stable=True)
+                    d = ("c", v) if v[0] in ("N", "b", "i", "f", "s", "y", "e") else ("fac", v)
+                fields.append(mk(nm, ty, d))
+            r.shuffle(fields)
+            fields.sort(key=lambda f: f["dflt"] is not None)
+            w["classes"].append({"kind": kind, "frozen": r.random() < 0.35, "fields": fields, "slots": r.random() < 0.5,
+                                 "recursive": None})
+        w["families"].append({"members": list(range(base, base + n)), "mode": mode,
+                              "byc": mode in ("uniq", "tag", "tag-overlap")})
+
+    def union_type(self, w, n_cls):
+        """a union over (a subset of) a family, or over arbitrary attrs classes / dataclasses of the world"""
+        r = self.rng
+        fams = [f for f in w.get("families", []) if all(m < n_cls for m in f["members"])]
+        if fams and r.random() < 0.85:
+            ms = list(r.choice(fams)["members"])
+            if len(ms) > 2 and r.random() < 0.3:
+                ms = r.sample(ms, 2)
+        else:
+            cands = [i for i in range(n_cls) if w["classes"][i]["kind"] != "td"]
+            if len(cands) < 2:
+                return None
+            ms = r.sample(cands, r.randint(2, min(3, len(cands))))
+        # one spelling per member set and world: `Union[A, B] == Union[B, A]`, so a converter's hook cache hands the
+        # hook made for whichever spelling it saw first to the other one (member order matters on junk payloads)
+        rank = w.setdefault("urank", {})
+        for m in ms:
+            if m not in rank:
+                rank[m] = r.random()
+        ms.sort(key=lambda m: rank[m])
+        return ("union", ms, r.random() < 0.3)
 
     def cls(self, w, ci, kinds, allow_untyped=True):
         r = self.rng
@@ -229,6 +356,10 @@ class Gen:
     def type(self, w, depth, max_cls=None, field=False, hashable=False, allow_any=True):
         r = self.rng
         n_cls = len(w["classes"]) if max_cls is None else max_cls
+        if self.unions and not hashable and n_cls >= 2 and r.random() < (0.2 if depth <= 0 else 0.07):
+            u = self.union_type(w, n_cls)
+            if u is not None:
+                return u
         if hashable:
             c = r.random()
             if c < 0.55:
@@ -342,6 +473,10 @@ class Gen:
                 else:
                     fs.append((f["name"], self.value(w, f["ty"], depth - 1, any_stable)))
             return ("I", t[1], fs)
+        if k == "union":
+            if t[2] and r.random() < 0.25:
+                return ("N",)
+            return self.value(w, ("cls", r.choice(t[1])), depth, any_stable)
         if k == "td":
             c = w["classes"][t[1]]
             kvs = []
@@ -446,7 +581,8 @@ class Gen:
                     del kvs[r.randrange(len(kvs))]
                     return ("d", kvs)
                 if c < 0.6:
-                    k = r.choice([("s", r.choice(FIELD_NAMES + ["zz", "a2", "p"])), self.any_leaf()])
+                    names = FIELD_NAMES + ["zz", "a2", "p"] + (["u0", "u1", "kind"] if self.unions else [])
+                    k = r.choice([("s", r.choice(names)), self.any_leaf()])
                     if not any(py_eq(k, u) for u, _ in kvs):
                         kvs.insert(r.randint(0, len(kvs)), (k, self.junk(w, 1)))
                     return ("d", kvs)
